@@ -496,6 +496,14 @@ func c12Mutations(r *rand.Rand, a *c12Archive, exhaustiveLimit int, nSample int)
 			x := cat(a.blocks[i].cid, a.blocks[j].data)
 			raw("splice-foreign-data", cat(a.bytes[:a.bounds[i]], uvar(uint64(len(x))), x, a.bytes[a.bounds[i+1]:]))
 		}
+		// a section that announces a HUGE length (around the signed / unsigned 64-bit, 32-bit and the 32 MiB section limits)
+		if i < 2 {
+			for _, v := range []uint64{1 << 63, 1<<63 + 1, 1<<64 - 1, 1<<63 - 1, 1 << 62, 1 << 32, 1<<32 - 1, 1 << 31, 33554432, 33554433, 33554431} {
+				raw("huge-len", cat(a.bytes[:a.bounds[i]], uvar(v), a.bytes[a.bounds[i]+len(uvar(uint64(len(a.blocks[i].cid)+len(a.blocks[i].data)))):]))
+			}
+			// an 11-octet varint (overflows 64 bits)
+			raw("huge-len", cat(a.bytes[:a.bounds[i]], []byte{0xff, 0xff, 0xff, 0xff, 0xff, 0xff, 0xff, 0xff, 0xff, 0xff, 0x01}, a.bytes[a.bounds[i]:]))
+		}
 		// non-minimal length prefix (encoding/binary accepts it)
 		l := uint64(len(a.blocks[i].cid) + len(a.blocks[i].data))
 		if l < 128 {
